@@ -1300,6 +1300,25 @@ func (S) RunTape(t *sim.Tape, st *sim.Stats, keepLog bool) *sim.Outcome {
 	st.Inc("runs")
 	st.Add("events", int64(s.Seq))
 	st.Add("transforms_ok", int64(okSteps))
+	// faults that actually reached the library (not merely planned)
+	for _, r := range w.seam.Readers {
+		switch {
+		case r.R.OpenErr != nil && r.F.Kind == "skip":
+			st.Inc("fired.loader_declines_block(SkipMe)")
+		case r.R.OpenErr != nil:
+			st.Inc("fired.read_open_error")
+		case r.Ended == "err":
+			st.Inc("fired.read_error_midstream")
+		}
+	}
+	for _, wr := range w.seam.Writers {
+		if wr.Failed {
+			st.Inc("fired.write_error")
+		}
+	}
+	if n := w.seam.CommitTries - len(w.seam.Commits); n > 0 {
+		st.Add("fired.commit_error", int64(n))
+	}
 	if w.faulty {
 		st.Inc("runs.faulty")
 	}
